@@ -122,7 +122,8 @@ def gen_own(seed, n):
         sec = T0 // 10 ** 9
         ppl = [c.admin] + c.users[:3]
         if treasury:
-            lines.append("tinst %d %s - - {}" % (sec * 10 ** 9, hx(c.admin)))
+            # the trader is the creator (default) or a separate account: being the trader gives no say in the hand-over
+            lines.append("tinst %d %s - %s {}" % (sec * 10 ** 9, hx(c.admin), rnd.choice(["-", hx(c.users[1]), hx(c.users[0])])))
         else:
             lines.append(c.inst(sec * 10 ** 9))
         admin = c.admin; pending = None; mint = None        # generator's own guess of the state (heuristic only)
@@ -223,7 +224,13 @@ def gen_treasury(seed, n):
             allowed.insert(rnd.randrange(len(allowed) + 1), [])        # routes are not validated: an empty one is accepted
         t = T0 + rnd.randrange(10 ** 12)
         who = rnd.choice([admin, admin, c.users[1]])
-        lines.append("tinst %d %s %s %s %s" % (t, hx(who), rnd.choice([hx(admin), "-"]), rnd.choice([hx(trader)] * 6 + ["-"] * 3 + [hx("bad address")]), routes_s(allowed)))
+        if h % 4 == 3:
+            # the defaults: an omitted trader is the instantiating account, an omitted admin likewise -- also when the other
+            # one is given
+            who = c.users[1]
+            lines.append("tinst %d %s %s %s %s" % (t, hx(who), rnd.choice([hx(admin), "-"]), "-", routes_s(allowed)))
+        else:
+            lines.append("tinst %d %s %s %s %s" % (t, hx(who), rnd.choice([hx(admin), "-"]), rnd.choice([hx(trader)] * 6 + ["-"] * 3 + [hx("bad address")]), routes_s(allowed)))
         lines.append("tquery")
         ppl = [admin, trader, c.users[1], c.users[2], who]
         cands = route_variants(rnd, allowed)
@@ -536,7 +543,8 @@ def gen_migrate(seed, n):
                 c.native(), hx("osmo"), hx(D), hx(c.channel), c.min, o, c.fee, tr, hx("factory/%s/stTIA" % c.me),
                 ",".join(hx(m) for m in c.monitors), c.bp, stopped, pk, wt))
         right = {"0418": "0.4.18", "0420": "0.4.20", "100": "1.0.0"}[layout]
-        vers = [right, right, right, "0.4.18", "0.4.20", "1.0.0", "1.1.0", "1.1.1", "2.0.0", "0.4.19", "1.0", "abc", "", "1.0.0-rc1", "01.0.0", "1.0.0 "]
+        vers = [right, right, right, "0.4.18", "0.4.20", "1.0.0", "1.1.0", "1.1.1", "2.0.0", "0.4.19", "1.0", "abc", "", "1.0.0-rc1", "01.0.0", "1.0.0 ",
+                "0.4.17", "0.1.0", "0.0.0", "0.4.18-rc.1", "0.4.20-beta", "0.9.9"]
         names = ["staking", "staking", "staking", "staking", "treasury", "Staking", ""]
         paths = {"0418": "v0418 %s" % rnd.choice(["0", "1"]),
                  "0420": None,
